@@ -92,7 +92,7 @@ def _exec_small(args):
     for i, c in enumerate(acar):
         routes = aroutes if tier == 'thorough' else [aroutes[(rot + i) % len(aroutes)]]
         for r in routes:
-            if r in ('setitem-slice', 'setitem-reuse') and c in ('nested-list', 'nested-tuple', 'ndarray-2d'):
+            if r in ('setitem-slice', 'setitem-reuse') and (c in ('nested-list', 'nested-tuple') or c.startswith(('ndarray-2d', 'ndarray-3d', 'ndarray-i64-2d'))):
                 continue
             out.append(x_store.observe(fx, np, fmt, modes, bv, c, r, props, True))
     # 3b. complex inputs: each component quantized on its own (boundary values; real part ascending, imaginary descending)
@@ -187,8 +187,9 @@ def _exec_wide(args):
         if rng.random() < 0.5:
             ac = rng.choice(['ndarray-f64', 'list', 'tuple', 'ndarray-i64', 'nested-list', 'ndarray-f32', 'ndarray-i32', 'ndarray-u8',
                             'list-decstr', 'nested-tuple', 'ndarray-2d', 'list-np.int8', 'list-np.int16', 'tuple-np.int32', 'list-np.uint8',
-                            'list-np.float16', 'tuple-np.float32', 'list-np.uint16', 'list-mixed-np'])
-            ar = rng.choice(['ctor', 'call', 'set_val', 'setitem-slice', 'call-reset', 'recfg', 'setitem-reuse', 'resize-signed', 'resize-fmt', 'like-signed', 'odd-config', 'config-obj'] if not (ac.startswith('nested') or ac == 'ndarray-2d') else ['ctor', 'call', 'set_val', 'recfg', 'resize-signed', 'like-signed', 'odd-config', 'config-obj'])
+                            'list-np.float16', 'tuple-np.float32', 'list-np.uint16', 'list-mixed-np', 'ndarray-2d-F', 'ndarray-2d-T', 'ndarray-3d',
+                            'ndarray-3d-swap', 'ndarray-i64-2d-F', 'ndarray-strided'])
+            ar = rng.choice(['ctor', 'call', 'set_val', 'setitem-slice', 'call-reset', 'recfg', 'setitem-reuse', 'resize-signed', 'resize-fmt', 'like-signed', 'odd-config', 'config-obj'] if not (ac.startswith('nested') or ac.startswith(('ndarray-2d', 'ndarray-3d', 'ndarray-i64-2d'))) else ['ctor', 'call', 'set_val', 'recfg', 'resize-signed', 'like-signed', 'odd-config', 'config-obj'])
             vv = sorted(vals) if len(vals) % 2 == 0 else sorted(vals)[:-1]
             if vv:
                 out.append(x_store.observe(fx, np, (s, w, f), (r, o), vv, ac, ar, props, True, {'sorted': True}))
@@ -260,7 +261,8 @@ def _exec_wide(args):
             cxs = [rng.randint(lo, hi) for _ in range(4)]
             c = F(rng.choice([hi + 45, 3 * (hi + 1) + 7, -(hi + 2), 300, 1, -1, 44]), 1 << t[2]) * (1 << t[2]) if rng.random() < 0.7 else F(rng.randint(-4 * hi, 4 * hi), 4)
             out.append(x_arith.observe_const(fx, np, ['C03'], rng.choice(['add', 'sub', 'mul']), t, cxs, c, rng.choice(['right', 'left', 'inplace']), 'same', 'same',
-                                             (rng.choice(ROUND), 'wrap'), method=rng.choice(['raw', 'repr']), extra={'register': True}))
+                                             (rng.choice(ROUND), 'wrap'), method=rng.choice(['raw', 'repr']), extra={'register': True},
+                                             history=rng.random() < 0.5))       # (half of them: the SAME object met the constant under saturate before)
         # the register is an explicit out= / out_like= object in wrap mode fed by operands of OTHER formats and signedness
         # (no fractional narrowing: the register's n_frac is the exact result's)
         for _ in range(count // 2 + 1):
@@ -291,7 +293,7 @@ def _exec_wide(args):
             band = [(1 << 63) + 5, -3 if s else 3, 7, (1 << 63) + 1, (1 << 64) - 1, rng.randint(0, 1 << 62)]
             rng.shuffle(band)
             out.append(x_store.observe(fx, np, (s, w, 0), (rng.choice(ROUND), 'wrap'), [F(b) for b in band],
-                                       'pyint-' + rng.choice(['list', 'tuple', 'nested-list', 'nested-tuple', 'list-1xk', 'list-3d']),
+                                       'pyint-' + rng.choice(['list', 'tuple', 'nested-list', 'nested-tuple', 'list-1xk', 'list-3d', 'obj-2d-F', 'obj-2d-T', 'obj-3d-swap']),
                                        rng.choice(['ctor', 'call', 'set_val']), props, True, {'wide': True}))
         # n_word in 64..256 with Python-integer inputs of any size (the int64/object switch)
         for _ in range(count // 2 + 1):
